@@ -83,7 +83,7 @@ _SESS = {}
 
 
 class Session:
-    def __init__(self, d):
+    def __init__(self, d, conf=None, neighbor=None):
         from exabgp.bgp.message.direction import Direction
         from exabgp.bgp.message.open import ASN, HoldTime, Open, RouterID, Version
         from exabgp.bgp.message.open.capability.addpath import AddPath
@@ -97,9 +97,13 @@ class Session:
         from exabgp.protocol.family import AFI, SAFI
 
         self.d = d
-        self.conf = create_minimal_configuration(peer_address=d['peer'], local_address=d['local'], local_as=d['local_as'],
-                                                 peer_as=d['peer_as'], families=FAMILIES)
-        n = self.neighbor = next(iter(self.conf.neighbors.values()))
+        if neighbor is None:
+            self.conf = create_minimal_configuration(peer_address=d['peer'], local_address=d['local'], local_as=d['local_as'],
+                                                     peer_as=d['peer_as'], families=FAMILIES)
+            n = self.neighbor = next(iter(self.conf.neighbors.values()))
+        else:  # one neighbor of a Configuration that has several (entry-point pass)
+            self.conf, n = conf, neighbor
+            self.neighbor = neighbor
         fam = lambda t: (AFI.from_int(t[0]), SAFI.from_int(t[1]))  # noqa: E731
         n._addpath = [fam(t) for t in d['addpath']]
         if d['addpath']:
@@ -145,6 +149,178 @@ def session(d):
     if key not in _SESS:
         _SESS[key] = Session(d)
     return _SESS[key]
+
+
+class Fanout:
+    """ONE Configuration with several neighbors (different local addresses and session kinds), as a running ExaBGP
+    has; routes go in through the real fan-out entry points Configuration.announce_route / withdraw_route (what the
+    API `announce route` command and the healthcheck call) and come out of every neighbor's Adj-RIB-Out."""
+
+    def __init__(self, sds):
+        from exabgp.bgp.message.open.asn import ASN
+        from exabgp.bgp.neighbor.settings import NeighborSettings, SessionSettings
+        from exabgp.configuration.configuration import Configuration
+        from exabgp.configuration.settings import ConfigurationSettings
+        from exabgp.configuration.setup import parse_family
+        from exabgp.protocol.ip import IP
+        from exabgp.reactor.api import API
+
+        settings = ConfigurationSettings()
+        settings.neighbors = []
+        for d in sds:
+            sess_set = SessionSettings()
+            sess_set.peer_address = IP.from_string(d['peer'])
+            sess_set.local_address = IP.from_string(d['local'])
+            sess_set.local_as = ASN(d['local_as'])
+            sess_set.peer_as = ASN(d['peer_as'])
+            ns = NeighborSettings()
+            ns.session = sess_set
+            ns.families = parse_family(FAMILIES)
+            settings.neighbors.append(ns)
+        self.sds = list(sds)
+        self.conf = Configuration.from_settings(settings)
+        by_peer = {str(n.session.peer_address): (name, n) for name, n in self.conf.neighbors.items()}
+        self.names, self.sessions = [], []
+        for d in sds:
+            name, n = by_peer[str(IP.from_string(d['peer']))]
+            self.names.append(name)
+            self.sessions.append(Session(d, conf=self.conf, neighbor=n))
+        self.order = list(self.conf.neighbors.keys())  # the order the fan-out loop visits the neighbors
+        self.api = API(None)  # the parser half of the API needs no reactor
+
+    def drain(self, i):
+        """-> ('ok', [UPDATE bodies]) | ('exc', ...): everything neighbor i's Adj-RIB-Out yields now"""
+        sess = self.sessions[i]
+        bodies = []
+        try:
+            for update in sess.neighbor.rib.outgoing.updates(False):
+                for m in update.messages(sess.neg):
+                    m = bytes(m)
+                    if len(m) < 19 or m[:16] != b'\xff' * 16 or m[18] != 2 or int.from_bytes(m[16:18], 'big') != len(m):
+                        return ('exc', 'BadHeader', m[:19].hex(), 'messages')
+                    bodies.append(m[19:])
+        except Exception as e:
+            return ('exc', type(e).__name__, str(e)[:200], 'rib.outgoing.updates/messages')
+        return ('ok', bodies)
+
+    def send(self, route, text, targets):
+        """`announce route <text>` (then `withdraw route <text>` when route['withdraw']) for the target neighbors.
+        -> (per neighbor index: impl outcome of the judged direction, exception of the command or None)"""
+        peers = [self.names[i] for i in targets]
+        words = text.split(' ', 1)[1]
+        for i in range(len(self.sessions)):
+            self.drain(i)  # nothing pending from an earlier command
+        try:
+            routes = self.api.api_route('announce route ' + words)
+            if len(routes) != 1:
+                return None, ('refused', f'{len(routes)} routes')
+            self.conf.announce_route(peers, routes[0])
+            out = {i: self.drain(i) for i in range(len(self.sessions))}
+            if route['withdraw']:
+                routes = self.api.api_route('withdraw route ' + words)
+                if len(routes) != 1:
+                    return None, ('refused', f'{len(routes)} routes (withdraw)')
+                self.conf.withdraw_route(peers, routes[0])
+                out = {i: self.drain(i) for i in range(len(self.sessions))}
+        except Exception as e:
+            return {i: self.drain(i) for i in range(len(self.sessions))}, ('exc', type(e).__name__, str(e)[:200])
+        return out, None
+
+
+_FAN = {}
+
+
+def fanout(sds):
+    key = json.dumps(sds, sort_keys=True)
+    if key not in _FAN:
+        _FAN[key] = Fanout(sds)
+    return _FAN[key]
+
+
+def make_entry_cases(sds, route, targets):
+    """the route text through the real fan-out; one case per target neighbor (judged against ITS session) plus what
+    must NOT happen: -> (cases, problems) where problems = [(sig, what, detail)]"""
+    fan = fanout(sds)
+    text = render(route)
+    out, err = fan.send(route, text, targets)
+    entry = {'sessions': list(sds), 'targets': list(targets), 'fan_out_order': [fan.names.index(n) for n in fan.order if n in fan.names]}
+    cases, problems = [], []
+    must_refuse = any(not family_matches(sds[i], route) for i in targets)
+    if must_refuse:
+        # "next-hop self" cannot be resolved for one target: the command errors and NO Adj-RIB-Out may have changed
+        leaked = [i for i in (out or {}) if out[i] != ('ok', [])]
+        if err is None or leaked:
+            problems.append(('api-fan-out:unresolvable-next-hop-self-changed-a-rib',
+                             'a command that must be refused (next-hop self of another family for one target) left routes in an Adj-RIB-Out',
+                             {'entry': entry, 'route_text': text, 'route': route, 'error': err, 'sent': {i: list(map(str, out[i])) for i in leaked}}))
+        return cases, problems
+    if err is not None or out is None:
+        problems.append(('api-fan-out:refused:' + str(err[1] if err else '')[:40], 'a route of the modelled domain was refused by the fan-out entry point',
+                         {'entry': entry, 'route_text': text, 'route': route, 'error': err}))
+        return cases, problems
+    for i in range(len(sds)):
+        if i not in targets:
+            if out[i] != ('ok', []):
+                problems.append(('api-fan-out:route-sent-to-a-neighbor-not-addressed', 'a neighbor outside the selection was sent something',
+                                 {'entry': entry, 'route_text': text, 'route': route, 'neighbor': sds[i], 'sent': list(map(str, out[i]))}))
+            continue
+        sess = fan.sessions[i]
+        cases.append({'sd': sds[i], 'sess': sess, 'route': route, 'text': text, 'impl': out[i], 'self': self_addrs(sess),
+                      'entry': dict(entry, index=i), 'fresh': run_impl(session(sds[i]), route, text)})
+    return cases, problems
+
+
+def config_text(sds, texts):
+    """a configuration file: ONE template whose static routes are inherited by every neighbor"""
+    # the configuration grammar has no `ipv6 multicast` (and the route grammar never makes an ipv6 multicast route)
+    fams = ' '.join(f'{AFI_NAME[a]} {SAFI_NAME[f]};' for a, f in FAM_TUPLES if (a, f) != (2, 2))
+    lines = ['template {', '    neighbor shared {', f'        family {{ {fams} }}', '        static {']
+    lines += [f'            {t};' for t in texts]
+    lines += ['        }', '    }', '}']
+    for d in sds:
+        lines.append(f'neighbor {d["peer"]} {{ inherit shared; router-id 10.255.0.1; local-address {d["local"]}; '
+                     f'local-as {d["local_as"]}; peer-as {d["peer_as"]}; }}')
+    return '\n'.join(lines) + '\n'
+
+
+def make_config_cases(sds, routes):
+    """routes of a template shared by several neighbors, read from a configuration FILE (Configuration.reload pushes them
+    into every neighbor's Adj-RIB-Out, resolving next-hop self per neighbor).  -> (cases, problems)"""
+    from exabgp.configuration.configuration import Configuration
+    from exabgp.protocol.ip import IP
+
+    texts = [render(r) for r in routes]
+    text = config_text(sds, texts)
+    entry = {'sessions': list(sds), 'targets': list(range(len(sds))), 'fan_out_order': [], 'template_routes': list(routes)}
+    conf = Configuration([text], text=True)
+    try:
+        ok = conf.reload()
+    except Exception as e:
+        return [], [('config-template:exception:' + type(e).__name__, 'a template of routes of the modelled domain makes Configuration.reload raise',
+                     {'entry': entry, 'configuration': text, 'error': str(e)[:300]})]
+    if not ok:
+        return [], [('config-template:refused', 'a template of routes of the modelled domain is refused',
+                     {'entry': entry, 'configuration': text, 'error': str(conf.error)[:300]})]
+    by_peer = {str(n.session.peer_address): n for n in conf.neighbors.values()}
+    cases, problems = [], []
+    key_of = lambda r: (r['afi'], r['safi'], f'{ip_text(r["ip"])}/{r["mask"]}')  # noqa: E731
+    for i, d in enumerate(sds):
+        n = by_peer[str(IP.from_string(d['peer']))]
+        sess = Session(d, conf=conf, neighbor=n)
+        got = {}
+        try:
+            for update in n.rib.outgoing.updates(False):
+                nl = update.announces[0].nlri
+                k = (int(nl.afi), int(nl.safi), nl.cidr.prefix())
+                got[k] = [bytes(m)[19:] for m in update.messages(sess.neg)]
+        except Exception as e:
+            problems.append(('config-template:exception:' + type(e).__name__, 'draining the Adj-RIB-Out of a configured neighbor raises',
+                             {'entry': entry, 'configuration': text, 'neighbor': d, 'error': str(e)[:300]}))
+            continue
+        for r, t in zip(routes, texts):
+            cases.append({'sd': d, 'sess': sess, 'route': r, 'text': t, 'impl': ('ok', got.get(key_of(r), [])), 'self': self_addrs(sess),
+                          'entry': dict(entry, index=i, config=True), 'fresh': run_impl(session(d), r, t)})
+    return cases, problems
 
 
 # ------------------------------------------------------------------------------- routes (structured)
@@ -827,6 +1003,8 @@ def sig_of(case, code):
     r = case['route']
     if 'group' in case and code == 5 and r['nh'] == 'self':
         return 'next-hop-self-is-the-address-of-another-session'
+    if 'entry' in case and code == 5 and r['nh'] == 'self':
+        return 'api-fan-out:next-hop-self-is-the-address-of-another-session'
     if code in (2, 4) and r['afi'] == 1 and r['safi'] == 2:
         return 'ipv4-multicast-sent-as-unicast'
     if code in (1, 3) and r['afi'] == 1 and r['safi'] == 2 and ([1, 2] in case['sd']['addpath']) != ([1, 1] in case['sd']['addpath']):
@@ -848,6 +1026,18 @@ def replay_of(case, code=None):
         out['how'] = ('the route text is parsed ONCE; the same Route object is resolved (Neighbor.resolve_self) and encoded for the '
                       f'sessions with local addresses {[sd["local"] for sd in g["sessions"]]} in this order; this is session #{g["index"]} '
                       f'({case["sd"]["local"]})')
+    if 'entry' in case:
+        e = case['entry']
+        out['entry'] = e
+        if e.get('config'):
+            out['how'] = ('the route is one of the static routes of a configuration-file template inherited by the neighbors with local '
+                          f'addresses {[sd["local"] for sd in e["sessions"]]} (Configuration.reload); this is what the Adj-RIB-Out of '
+                          f'neighbor #{e["index"]} ({case["sd"]["local"]}) yields for it')
+            return out
+        out['how'] = ('`' + ('withdraw' if case['route']['withdraw'] else 'announce') + ' route ...` parsed by API.api_route and handed to '
+                      'Configuration.' + ('withdraw_route' if case['route']['withdraw'] else 'announce_route') + ' of ONE configuration whose neighbors '
+                      f'have local addresses {[sd["local"] for sd in e["sessions"]]}; targets {e["targets"]}, fan-out order {e["fan_out_order"]}; '
+                      f'this is what the Adj-RIB-Out of neighbor #{e["index"]} ({case["sd"]["local"]}) yields')
     return out
 
 
@@ -855,6 +1045,15 @@ def case_from_replay(case):
     """rebuild the case(s) of a replay file; -> (cases, index of the judged one)"""
     route = dict(case['route'])
     route['attrs'] = [tuple(a) for a in route['attrs']]
+    if 'entry' in case and case['entry'].get('template_routes'):
+        trs = [dict(r, attrs=[tuple(a) for a in r['attrs']]) for r in case['entry']['template_routes']]
+        cs, _ = make_config_cases(case['entry']['sessions'], trs)
+        idx = next((i for i, c in enumerate(cs) if c['entry']['index'] == case['entry'].get('index') and c['text'] == case.get('route_text')), 0)
+        return cs, idx
+    if 'entry' in case:
+        cs, _ = make_entry_cases(case['entry']['sessions'], route, case['entry']['targets'])
+        idx = next((i for i, c in enumerate(cs) if c['entry']['index'] == case['entry'].get('index')), 0)
+        return cs, idx
     if 'group' in case:
         cs = make_group_cases(case['group']['sessions'], route)
         want = case['group']['index']
@@ -954,6 +1153,79 @@ def check(tier, seed):
         new = make_group_cases(group, r)
         group_cases += len(new)
         cases.extend(new)
+    # entry-point pass (every tier): ONE Configuration with 2-4 neighbors of different local address and session kind;
+    # route texts go through API.api_route + Configuration.announce_route / withdraw_route; every neighbor's Adj-RIB-Out
+    # is drained and judged against ITS session.  Emphasis on next-hop self; literal next hops, `neighbor <one>`
+    # selections and unresolvable commands (nothing may change) as controls.
+    n_entry = 60 if quick else 900
+    entry_cases, entry_problems = 0, []
+    fan_groups = []
+    for gi in range(6 if quick else 24):
+        k = [3, 4, 2, 4, 3, 4][gi % 6]
+        pool4 = rng.sample(v4s, min(len(v4s), k))
+        grp = pool4 if gi % 3 == 0 else (pool4[: k - 1] + [rng.choice(v6s)] if gi % 3 == 1 else [rng.choice(v6s)] + pool4[: k - 2] + [rng.choice([x for x in v6s])])
+        seen_local, uniq = set(), []
+        for sd in grp:
+            if sd['local'] not in seen_local:
+                seen_local.add(sd['local'])
+                uniq.append(sd)
+        if len(uniq) >= 2:
+            fan_groups.append(uniq)
+    for ei in range(n_entry):
+        grp = fan_groups[ei % len(fan_groups)]
+        r = gen_route(rng, grp[0], ['plain', 'mixed', 'mixed'][ei % 3])
+        r['withdraw'] = ei % 6 == 5
+        r['stream'] = 'entry'
+        mode = ei % 5
+        if mode != 4:
+            r['nh'] = 'self'
+        else:
+            r['nh'] = rand_ip4(rng) if r['afi'] == 1 else rand_ip6(rng)
+        everyone = list(range(len(grp)))
+        matching = [i for i in everyone if family_matches(grp[i], r)]
+        if mode == 0 and len(matching) != len(everyone):
+            targets = everyone            # must be refused as a whole
+        elif mode == 3 and matching:
+            targets = [rng.choice(matching)]   # `neighbor <ip> announce route ...`
+        elif mode == 2 and len(matching) >= 2:
+            targets = sorted(rng.sample(matching, 2))
+        else:
+            targets = matching            # `peer * announce route ...` (the neighbors that can resolve it)
+        if not targets:
+            continue
+        new, problems = make_entry_cases(grp, r, targets)
+        entry_cases += len(new)
+        entry_problems += problems
+        cases.extend(new)
+    # configuration-file pass: a template of static routes inherited by 2-4 neighbors of one transport
+    config_cases = 0
+    for ci in range(4 if quick else 40):
+        pool = v4s if ci % 2 == 0 or len(v6s) < 2 else v6s
+        grp = rng.sample(pool, min(len(pool), [2, 3, 4][ci % 3]))
+        v6t = ':' in grp[0]['local']
+        trs, keys = [], set()
+        for ri in range(5 if quick else 8):
+            r = gen_route(rng, grp[0], ['plain', 'mixed'][ri % 2])
+            r['withdraw'] = False
+            r['stream'] = 'entry'
+            if (r['afi'] == 2) == v6t and ri % 4 != 3:
+                r['nh'] = 'self'
+            else:
+                r['nh'] = rand_ip4(rng) if r['afi'] == 1 else rand_ip6(rng)
+            k = (r['afi'], r['safi'], tuple(r['ip']), r['mask'])
+            if k in keys:
+                continue
+            keys.add(k)
+            trs.append(r)
+        new, problems = make_config_cases(grp, trs)
+        config_cases += len(new)
+        entry_problems += problems
+        cases.extend(new)
+    for sig, what, detail in entry_problems[:5]:
+        run.fail_case(sig, what, detail)
+    run.obligation('fan-out entry points: a command that cannot be resolved for one target changes no Adj-RIB-Out, neighbors outside '
+                   'the selection are sent nothing, no route of the domain is refused', not entry_problems,
+                   json.dumps([[p[0], p[2].get('route_text')] for p in entry_problems[:4]])[:1500])
     # replays of earlier failures run with everything else (each is one more case)
     import glob as _glob
     import os as _os
@@ -1044,14 +1316,14 @@ def check(tier, seed):
         run.notes.append('correspondence mismatch: ' + json.dumps(replay_of(cases[k]), default=str)[:1200])
 
     # one parsed route, several sessions: what a session is sent must not depend on the sessions served before it
-    dep = [k for k, c in enumerate(cases) if 'group' in c and c['impl'] != c['fresh']]
+    dep = [k for k, c in enumerate(cases) if 'fresh' in c and c['impl'] != c['fresh']]
     for k in dep[:3]:
         rp = replay_of(cases[k])
         rp['fresh_parse_sent_hex'] = [b.hex() for b in cases[k]['fresh'][1]] if cases[k]['fresh'][0] == 'ok' else list(cases[k]['fresh'])
-        run.fail_case('shared-parsed-route:bytes-depend-on-sessions-served-before',
+        run.fail_case(('api-fan-out' if 'entry' in cases[k] else 'shared-parsed-route') + ':bytes-depend-on-sessions-served-before',
                       'the same parsed route gives a session other bytes than a fresh parse of the same text', rp)
-    run.obligation('a parsed route resolved for several sessions gives each session the bytes of a fresh parse (no state shared '
-                   'through Neighbor.resolve_self)', not dep, json.dumps([replay_of(cases[k]).get('how') for k in dep[:3]])[:1500])
+    run.obligation('a route fanned out to several sessions (one parsed route / Configuration.announce_route) gives each session the '
+                   'bytes of a fresh parse for that session alone', not dep, json.dumps([replay_of(cases[k]).get('how') for k in dep[:3]])[:1500])
 
     # nothing sent for a route that fits easily
     silent = [k for k, c in enumerate(cases) if c['impl'][0] == 'ok' and len(c['impl'][1]) != 1
@@ -1068,7 +1340,14 @@ def check(tier, seed):
         k = min(ks, key=lambda j: len(cases[j]['text']))
         best, code = cases[k], failing[k]
         for _round in range(6):
-            if 'group' in best:  # keep the shared parse and the order of the sessions; shrink the route only
+            if 'entry' in best and best['entry'].get('config'):
+                cands = []  # the whole template is the input; it is kept as it is
+            elif 'entry' in best:  # keep the configuration and the targets; shrink the route only
+                cands = []
+                for r in shrink(best['route']):
+                    cs_, _pb = make_entry_cases(best['entry']['sessions'], r, best['entry']['targets'])
+                    cands += [c for c in cs_ if c['entry']['index'] == best['entry']['index']]
+            elif 'group' in best:  # keep the shared parse and the order of the sessions; shrink the route only
                 cands = []
                 for r in shrink(best['route']):
                     cands += [c for c in make_group_cases(best['group']['sessions'], r) if c['group']['index'] == best['group']['index']]
@@ -1108,7 +1387,7 @@ def check(tier, seed):
         'ipv6_route_with_ipv4_next_hop': sum(1 for c in cases if c['route']['afi'] == 2 and c['route']['nh'] != 'self' and len(c['route']['nh']) == 4),
         'large_asn_to_2byte_peer': sum(1 for c in cases if not c['sd']['peer_asn4'] and expected(c['sd'], c['route'])['large_asn']),
         'near_message_size_limit': near_limit,
-        'shared_parsed_route_cases': group_cases, 'replays_rerun': replayed,
+        'shared_parsed_route_cases': group_cases, 'replays_rerun': replayed, 'fan_out_entry_point_cases': entry_cases, 'configuration_template_cases': config_cases,
         'extended_length_attributes': sum(1 for c in cases for k, v in c['route']['attrs'] if k == 'attribute' and len(v[2]) > 255),
         'timing_s': {'implementation': round(t_impl, 1), 'coq_eval': round(t_eval, 1)},
     })
